@@ -168,6 +168,65 @@ def robustness_checks():
         bad.append(dict(script=dict(kind='PredefinedGenerator whose points are replaced between batches'),
                         violated='the refreshed points are never delivered (the underlying generator is no longer asked)', later_batches=later))
 
+    # samples of integer type (indices of a lattice / of a data set), beyond the range floats represent exactly: delivered as drawn
+    class Ints(BaseGenerator):
+        def __init__(self, dtype):
+            super().__init__()
+            self.size, self.k, self.given, self.dtype = 3, 0, [], dtype
+            self.base = 2 ** 40 + 1 if dtype == torch.int64 else 2 ** 24 + 1
+
+        def get_examples(self):
+            t = torch.tensor([self.base + self.k * 3 + i for i in range(3)], dtype=self.dtype)
+            self.k += 1
+            self.given += t.tolist()
+            return t
+    for dtype in (torch.int64, torch.int32, torch.float64):
+        for bs in (3, 6, 2, 4):            # batch sizes that do and do not empty the cache
+            src = Ints(dtype)
+            bg = BatchGenerator(src, bs)
+            delivered, dts = [], set()
+            for _ in range(6):
+                b = bg.get_examples()
+                dts.add(b.dtype)
+                delivered += b.tolist()
+            if delivered != src.given[:len(delivered)] or dts != {dtype}:
+                first = next((i for i, (a, b_) in enumerate(zip(delivered, src.given)) if a != b_), None)
+                bad.append(dict(script=dict(kind='integer-valued samples beyond the exact range of float32', dtype=str(dtype), batch_size=bs),
+                                violated='a delivered sample differs (in value or type) from the sample that was drawn', index=first,
+                                delivered=None if first is None else delivered[first], drawn=None if first is None else src.given[first],
+                                dtypes=sorted(str(d) for d in dts)))
+    # a requested batch size of 0: every batch has exactly 0 samples and nothing is consumed
+    src = Ints(torch.float64)
+    try:
+        bg = BatchGenerator(src, 0)
+        drawn_before = len(src.given)
+        sizes = [len(bg.get_examples()) for _ in range(3)]
+        if sizes != [0, 0, 0] or len(src.given) != drawn_before:
+            bad.append(dict(script=dict(kind='requested batch size 0'), violated='batches do not have exactly the requested size', batch_sizes=sizes))
+    except (ValueError, TypeError):
+        pass        # rejecting the request is fine
+    # the sub-generator is a public attribute: a replaced / wrapped sub-generator is what later refills draw from
+    a, b2 = Ints(torch.float64), Ints(torch.float64)
+    b2.base = 7.0e6
+    bg = BatchGenerator(a, 2)
+    got = bg.get_examples().tolist() + bg.get_examples().tolist()         # 4 of a's first 6 samples
+    bg.generator = b2
+    later = [v for _ in range(4) for v in bg.get_examples().tolist()]      # 2 cached from a, then b2's
+    want = (a.given + b2.given)[4:12]
+    if len(a.given) != 6 or later != want:
+        bad.append(dict(script=dict(kind='sub-generator replaced between batches (bg.generator = other)'),
+                        violated='later batches are not the cached samples followed by the draws of the new sub-generator', got=later, want=want,
+                        draws_taken_from_old=len(a.given) // 3, draws_taken_from_new=len(b2.given) // 3))
+    c3 = Ints(torch.float64)
+    bg = BatchGenerator(c3, 4)
+    log = []
+    inner = c3.get_examples
+    c3.get_examples = lambda: (log.append(1), inner())[1]                 # an instrumented sub-generator (logging wrapper)
+    for _ in range(3):
+        bg.get_examples()
+    if len(log) != c3.k - 1:
+        bad.append(dict(script=dict(kind='sub-generator whose get_examples is wrapped after construction'),
+                        violated='refills bypass the wrapper', wrapper_calls=len(log), draws=c3.k - 1))
     class Widening(BaseGenerator):
         def __init__(self):
             super().__init__()
